@@ -20,6 +20,26 @@ pub fn impl_parse(text: &str) -> String {
     }
 }
 
+/// the property C16 states, on the real code alone and for whatever text the real parser accepts:
+/// "" when the text is rejected, "same" when the rendering of the parsed tree parses back to an equal tree,
+/// otherwise what happened, with the rendering
+pub fn impl_roundtrip(text: &str) -> String {
+    match catch_unwind(AssertUnwindSafe(|| match Expr::parse(text) {
+        Err(_) => String::new(),
+        Ok(e) => {
+            let shown = e.to_string();
+            match Expr::parse(&shown) {
+                Ok(e2) if e2 == e => "same".into(),
+                Ok(_) => format!("different-tree\t{}", shown),
+                Err(_) => format!("rendering-rejected\t{}", shown),
+            }
+        }
+    })) {
+        Ok(s) => s,
+        Err(_) => "PANIC".into(),
+    }
+}
+
 pub fn impl_parse_rule(text: &str) -> String {
     match catch_unwind(AssertUnwindSafe(|| Rule::parse(text))) {
         Err(_) => "PANIC".into(),
@@ -95,6 +115,56 @@ pub fn toks_stream(thorough: bool) -> Vec<TextCase> {
         out.push(TextCase { text: s, tag: "toks16" });
     }
     out
+}
+
+/// compound-literal token classes: identifier, a string that is not identifier-shaped, a literal, and every separator /
+/// bracket of lists and maps — every sequence up to length 5 (thorough 6): a production added to or removed from the
+/// list / map / metadata part of the grammar shows here as an accept / reject or tree difference
+pub const TOK_REPS9: [&str; 9] = ["a", "\"-\"", "i1", ":", ",", "[", "]", "{", "}"];
+
+pub fn brackets_stream(thorough: bool) -> Vec<TextCase> {
+    let reps: Vec<String> = TOK_REPS9.iter().map(|s| s.to_string()).collect();
+    all_strings(&reps, if thorough { 6 } else { 5 }, " ").into_iter().map(|s| TextCase { text: s, tag: "toks9" }).collect()
+}
+
+/// string literals whose body mixes 1-, 2-, 3- and 4-byte characters with valid and invalid escapes at every distance
+/// 0..=14 characters from either end (byte offsets and character offsets differ; error paths are exercised as much
+/// as the accepting ones)
+pub fn strlit_stream(rng: &mut Rng, thorough: bool) -> Vec<TextCase> {
+    let fillers = ["a", "é", "日", "😀"];
+    let escapes = ["\\q", "\\d", "\\u{110000}", "\\u{D800}", "\\u{}", "\\u{zz}", "\\u", "\\u{41", "\\n", "\\\\", "\\\"", "\\u{41}", "\\u{1F600}", "\\'", "\\0", "\\x41"];
+    let mut t: Vec<String> = vec![];
+    let span = if thorough { 20 } else { 14 };
+    for e in escapes {
+        for f in fillers {
+            for pre in 0..=span {
+                for post in [0usize, 1, 2, 3, 11, 12, 13, span] {
+                    t.push(format!("\"{}{}{}\"", f.repeat(pre), e, f.repeat(post)));
+                }
+            }
+        }
+        for (f, g) in [("a", "é"), ("é", "a"), ("日", "😀"), ("😀", "a")] {
+            for pre in [1usize, 5, 11, 12, 13] {
+                for post in [1usize, 5, 11, 12, 13] {
+                    t.push(format!("\"{}{}{}\"", f.repeat(pre), e, g.repeat(post)));
+                    t.push(format!("\"{}{}{}{}\"", f.repeat(pre), g, e, f.repeat(post)));
+                }
+            }
+        }
+    }
+    for _ in 0..(if thorough { 60000 } else { 6000 }) {
+        let n = rng.below(30);
+        let mut body = String::new();
+        for _ in 0..n {
+            match rng.below(5) {
+                0 => body.push_str(escapes[rng.below(escapes.len())]),
+                1 => body.push_str("a"),
+                _ => body.push_str(fillers[rng.below(4)]),
+            }
+        }
+        t.push(format!("\"{}\"", body));
+    }
+    t.into_iter().map(|text| TextCase { text, tag: "strlit" }).collect()
 }
 
 pub const BIN_TOKS: [&str; 19] = ["and", "or", "==", "=", "!=", ">", "<", ">=", "<=", "+", "-", "*", "/", "%", "&", "|", "^", "contains", "in"];
@@ -619,12 +689,14 @@ pub fn run_c06(rep: &mut Report, driver: &str, workers: usize, thorough: bool, s
     let mut rng = Rng::new(seed);
     let mut texts = chars_stream(thorough);
     texts.extend(toks_stream(thorough));
+    texts.extend(brackets_stream(thorough));
+    texts.extend(strlit_stream(&mut rng, thorough));
     texts.extend(mutation_stream(&mut rng, thorough));
     texts.extend(literal_stream(&mut rng, false));
     texts.extend(prec_stream());
-    let rule_texts: Vec<TextCase> = texts.iter().filter(|t| t.tag != "toks30").step_by(3).map(|t| TextCase { text: format!("//n\n@k: {}; {}", t.text, t.text), tag: "as-rule" }).collect();
+    let rule_texts: Vec<TextCase> = texts.iter().filter(|t| t.tag != "toks30" && t.tag != "toks9").step_by(3).map(|t| TextCase { text: format!("//n\n@k: {}; {}", t.text, t.text), tag: "as-rule" }).collect();
     let run = run_texts(texts, false, driver, workers);
-    judge_texts("C06", "expr-texts", "every string of length <= 3 (thorough 4) over the 24-character literal alphabet `ifd0189xboe.+-\"\\/nu{}_a ` and of length <= 2 (3) over 37 punctuation / whitespace / non-ASCII characters; every sequence of <= 3 (4) of 30 token representatives and <= 4 (5) of 16; character-level mutations (delete / duplicate / insert junk / swap) of grammar-generated texts; out-of-range numerals in every numeric position, every escape form, control and non-ASCII characters; the precedence texts — through Expr::parse under catch_unwind", false, &run, "panic", rep);
+    judge_texts("C06", "expr-texts", "every string of length <= 3 (thorough 4) over the 24-character literal alphabet `ifd0189xboe.+-\"\\/nu{}_a ` and of length <= 2 (3) over 37 punctuation / whitespace / non-ASCII characters; every sequence of <= 3 (4) of 30 token representatives, <= 4 (5) of 16 and <= 5 (6) of the 9 compound-literal token classes; string literals mixing 1- to 4-byte characters with 16 valid / invalid escape forms at every distance 0..14 from either end; character-level mutations (delete / duplicate / insert junk / swap) of grammar-generated texts; out-of-range numerals in every numeric position, every escape form, control and non-ASCII characters; the precedence texts — through Expr::parse under catch_unwind", false, &run, "panic", rep);
     let mut more = rule_stream(&mut rng, false);
     more.extend(rule_texts);
     let run2 = run_texts(more, true, driver, workers);
@@ -635,8 +707,10 @@ pub fn run_c07(rep: &mut Report, driver: &str, workers: usize, thorough: bool, s
     let mut rng = Rng::new(seed);
     let run = run_texts(prec_stream(), false, driver, workers);
     judge_texts("C07", "precedence", "`a op1 b op2 c` (bare, left- and right-parenthesised, with postfix steps) for every ordered pair of the 19 binary operator tokens; unary x binary combinations; if in operand positions; calls / lists / maps as operands; synonym spellings; chaining / non-chaining of contains, index forms, trailing commas, keyword-vs-call forms — accept/reject and tree compared with the reference parser", true, &run, "full", rep);
-    let run = run_texts(toks_stream(thorough), false, driver, workers);
-    judge_texts("C07", "token-sequences", "every sequence of <= 3 (thorough 4) of 30 token representatives and of <= 4 (thorough 5) of 16 representatives (one per precedence level and bracket kind), accepted and rejected alike", true, &run, "full", rep);
+    let mut seqs = toks_stream(thorough);
+    seqs.extend(brackets_stream(thorough));
+    let run = run_texts(seqs, false, driver, workers);
+    judge_texts("C07", "token-sequences", "every sequence of <= 3 (thorough 4) of 30 token representatives, of <= 4 (thorough 5) of 16 representatives (one per precedence level and bracket kind) and of <= 5 (thorough 6) of the 9 compound-literal token classes (identifier, non-identifier string, literal, `: , [ ] { }`), accepted and rejected alike", true, &run, "full", rep);
     // every tree of the image rendered with minimal, full and random redundant parentheses parses back to itself
     let trees: Vec<Expr> = image_trees(&mut rng, thorough).into_iter().filter(|e| !has_nonfinite(e)).collect();
     let mut texts = vec![];
@@ -666,9 +740,10 @@ pub fn run_c07(rep: &mut Report, driver: &str, workers: usize, thorough: bool, s
 pub fn run_c08(rep: &mut Report, driver: &str, workers: usize, thorough: bool, seed: u64, known: &mut Vec<String>) {
     let mut rng = Rng::new(seed);
     let mut texts = literal_stream(&mut rng, thorough);
+    texts.extend(strlit_stream(&mut rng, thorough));
     texts.extend(chars_stream(thorough));
     let run = run_texts(texts, false, driver, workers);
-    judge_texts("C08", "literals", "integers at every boundary and random i128 in four radices (upper/lower-case hex), out-of-range numerals, floats and decimals through Rust's / rust_decimal's own printers (shortest, exponent, every scale), limits of f64 (overflow to inf, subnormal, halfway cases), strings over the full Unicode range with each escapable character escaped or raw and every malformed escape, every keyword +- one identifier character, literal-prefix collisions (int inty i5 i5x f1e f1e5 d5x in inx …); all short strings over the literal alphabet — compared on the tree with canonical literal encodings (bit patterns, mantissa+scale, code points)", false, &run, "full", rep);
+    judge_texts("C08", "literals", "string literals mixing 1- to 4-byte characters with 16 valid / invalid escape forms at every distance 0..14 from either end; integers at every boundary and random i128 in four radices (upper/lower-case hex), out-of-range numerals, floats and decimals through Rust's / rust_decimal's own printers (shortest, exponent, every scale), limits of f64 (overflow to inf, subnormal, halfway cases), strings over the full Unicode range with each escapable character escaped or raw and every malformed escape, every keyword +- one identifier character, literal-prefix collisions (int inty i5 i5x f1e f1e5 d5x in inx …); all short strings over the literal alphabet — compared on the tree with canonical literal encodings (bit patterns, mantissa+scale, code points)", false, &run, "full", rep);
     // layout: every gap shape at every boundary gives the tree of the single-space text
     let seqs = layout_stream(&mut rng, thorough);
     let mut ltexts = vec![];
@@ -784,6 +859,38 @@ pub fn run_c16(rep: &mut Report, driver: &str, workers: usize, thorough: bool, s
         if !model_parse[i].unanswered && model_parse[i].reply != want {
             rep.add_finding(Finding { kind: "model-disagreement".into(), stream: "renderings".into(), case: format!("parse\t{}", hexes[i]), human: texts[i].chars().take(160).collect(), impl_out: reparsed[i].clone(), model_out: model_parse[i].reply.clone(), predicate: "the reference parser must parse the real rendering to the same tree".into(), signature: "C16 model-parse".into() });
         }
+    }
+    // every text of the token-sequence / compound-literal / precedence / string-literal streams that the real parser
+    // accepts: the rendering of what it produced must parse back to it ("for every expression the parser can produce"
+    // — including expressions only a changed grammar can produce, which no generator of trees knows about)
+    {
+        let mut texts = toks_stream(thorough);
+        texts.extend(brackets_stream(thorough));
+        texts.extend(prec_stream());
+        texts.extend(strlit_stream(&mut rng, false));
+        let m = texts.len();
+        let mut out = vec![String::new(); m];
+        let chunk = ((m + workers - 1) / workers.max(1)).max(1);
+        std::thread::scope(|sc| {
+            for (cs, os) in texts.chunks(chunk).zip(out.chunks_mut(chunk)) {
+                sc.spawn(move || {
+                    for (c, o) in cs.iter().zip(os.iter_mut()) {
+                        *o = impl_roundtrip(&c.text);
+                    }
+                });
+            }
+        });
+        let mut sr2 = StreamReport::new("accepted-texts", "every sequence of <= 3 (thorough 4) of 30 token representatives, <= 4 (5) of 16, <= 5 (6) of the 9 compound-literal token classes, the precedence texts and the mixed-width string literals: whenever the real parser accepts the text, the rendering of the tree it returned must parse back to an equal tree (predicate on the real code alone; no model involved)", true);
+        for (t, o) in texts.iter().zip(out.iter()) {
+            sr2.count(&t.text, !o.is_empty());
+            sr2.hist("outcome", if o.is_empty() { "text rejected" } else { o.split('\t').next().unwrap_or("") });
+            if !o.is_empty() && o != "same" {
+                let shown = o.split('\t').nth(1).unwrap_or("");
+                let sig = if shown.contains("inf") || shown.contains("NaN") { "C16 nonfinite-float-literal".to_string() } else { format!("C16 accepted-text {}", t.tag) };
+                rep.add_finding(Finding { kind: "impl-violates-property".into(), stream: "accepted-texts".into(), case: format!("roundtrip\t{}", hex(&t.text)), human: format!("{:?} renders as {:?}", t.text, shown).chars().take(200).collect(), impl_out: o.clone(), model_out: "same".into(), predicate: "the rendering of a parsed expression parses back to an equal expression".into(), signature: sig });
+            }
+        }
+        rep.streams.push(sr2);
     }
     if !lexreqs.is_empty() {
         let replies = crate::driver::par_batch(driver, workers, &lexreqs);
